@@ -186,6 +186,21 @@ CHECKS = {
          'independent oracle judges staleness (quarter-second time stamps), isolation against compiling each file alone, dry run, '
          'mirroring, and single-file mode against the library.'),
    note=BASE_NOTE + ' The compiler is a parameter of the model; os.utime/os.walk/glob are trusted; -V, -g, -L, -S, -N are not modelled.'),
+ 'C20': dict(category='proof',
+   technique='Lean 4: the three recursion mechanisms as total functions whose only counters are the code\'s own (variable substitution rounds/nesting, import level, mixin depth) + theorems about what the counters do + differential correspondence under a wall-clock oracle',
+   text=('Models without fuel of their own: Lessm.Term.process (node.py: nesting budget 128, round limit 2*vars+4), Lessm.Term.loadUnits '
+         '(parser.py: import level 8, shared error register), Lessm.Mixin.evalItems (deferred.py: depth 64; its model-only gas is proved '
+         'irrelevant). Theorems: C20_var_cycle (every definition set with a reachable cycle, all names defined, evaluates to the '
+         'recursive-definition error for every budget; never to a value even with undefined names), C20_var_acyclic_rounds (the round limit never '
+         'rejects an acyclic set: pigeonhole), C20_var_mono, C20_var_ok_closed; C20_import_cycle (a cycle reachable from the root is reported), '
+         'C20_import_shallow (import trees of depth <= 9 load to exactly the textual inclusion, no depth error), C20_import_errs_only; '
+         'C20_mixin_gas_enough / _gas_irrelevant / _total (the depth limit alone bounds the recursion: above an explicit bound the result does '
+         'not depend on gas and is never a stack exhaustion), C20_mixin_self / _self_nested / _cycle (any length) / _trap (recursion without '
+         'base case is the NameError compilation error), C20_mixin_countdown (for every n <= 64 the guarded count-down expands to exactly n '
+         'declarations, for every n >= 65 it is the error). Tie: random variable graphs, import graphs on disk, recursion families and '
+         'random recursive mixin programs run through model and compiler; every compilation must end within 15 s + 0.5 s/KB of output as a '
+         'result or a CompilationError.'),
+   note=BASE_NOTE + ' The cost of one step in CPython and of PLY parsing is measured by the wall-clock oracle, not proved.'),
 }
 NOT_APPLICABLE = {p: 'check under construction in this round (see DESIGN.md section 10 build order); not claimed yet' for p in
-  ['C13','C14','C20']}
+  ['C13','C14']}
